@@ -41,6 +41,7 @@ def monitor(script_lines, out_lines):
     Returns None if it holds, else a description."""
     ref = RefSet()
     oi = 0
+    buf = ""
     for l in script_lines:
         t = l.split()
         if not t:
@@ -63,7 +64,21 @@ def monitor(script_lines, out_lines):
             if oi >= len(out_lines) or out_lines[oi] != exp:
                 return "observed '%s', expected '%s'" % (out_lines[oi] if oi < len(out_lines) else None, exp)
             oi += 1
-        elif t[0] in ("bhash",):
+        elif t[0] == "bnew":
+            buf = ""
+        elif t[0] == "bchar" or t[0] == "bstr":
+            buf += vlib.unhexs(t[1])
+        elif t[0] == "bset":
+            buf = buf[:min(int(t[1]), len(buf))]
+        elif t[0] == "bhash":
+            exp = "bh %d" % py_hash(buf)
+            if oi >= len(out_lines) or out_lines[oi] != exp:
+                return "the buffer holds %r: hash observed '%s', expected '%s'" % (buf, out_lines[oi] if oi < len(out_lines) else None, exp)
+            oi += 1
+        elif t[0] == "bq":
+            exp = "bc %d" % ref.count(hexs(buf))
+            if oi >= len(out_lines) or out_lines[oi] != exp:
+                return "query with the buffer %r as key: observed '%s', reference multiset says '%s'" % (buf, out_lines[oi] if oi < len(out_lines) else None, exp)
             oi += 1
     return None
 
@@ -99,24 +114,40 @@ def gen_cases(tier, seed):
             lines.append("%s %s" % (rng.choice(["add", "add", "pop"]), v))
             lines.append("q " + " ".join(hexs(rng.choice(pool)) for _ in range(3)))
         cases.append(("r%d" % k, "\n".join(lines), "random"))
-    # hash and hash-cache sequences
-    for k in range(200 if tier == "quick" else 2000):
+    # hash and hash-cache sequences: a growable buffer is appended to, truncated (by 0, 1, 2, ... characters, the
+    # boundary of the cached-hash invalidation) and re-hashed; its view is also used as the key of set queries
+    for k in range(300 if tier == "quick" else 3000):
         lines = []
         for _ in range(5):
             s = "".join(chr(rng.randint(1, 255)) for _ in range(rng.randint(0, 30)))
             lines.append("hash " + hexs(s))
+        pool = ["".join(chr(rng.choice([97, 98, 99, 200])) for _ in range(rng.randint(1, 4))) for _ in range(4)]
+        pool += [p[:-1] for p in pool if len(p) > 1]
+        lines.append("new %d" % rng.choice([0, 1, 4]))
+        for p in pool:
+            if rng.random() < 0.7:
+                lines.append("add " + hexs(p))
         lines.append("bnew")
+        cur = 0
         for _ in range(rng.randint(3, 30)):
             r = rng.random()
-            if r < 0.3:
-                lines.append("bchar " + hexs(chr(rng.randint(1, 255))))
-            elif r < 0.55:
-                lines.append("bstr " + hexs("".join(chr(rng.randint(1, 255)) for _ in range(rng.randint(0, 9)))))
-            elif r < 0.75:
-                lines.append("bset %d" % rng.randint(0, 12))
-            else:
+            if r < 0.2:
+                lines.append("bchar " + hexs(chr(rng.choice([97, 98, 99, 200, rng.randint(1, 255)]))))
+                cur += 1
+            elif r < 0.4:
+                w = rng.choice(pool + ["".join(chr(rng.randint(1, 255)) for _ in range(rng.randint(0, 9)))])
+                lines.append("bstr " + hexs(w))
+                cur += len(w)
+            elif r < 0.6:
+                n = max(0, cur - rng.choice([0, 1, 1, 1, 2, 3, cur]))
+                lines.append("bset %d" % n)
+                cur = n
+            elif r < 0.8:
                 lines.append("bhash")
+            else:
+                lines.append("bq")
         lines.append("bhash")
+        lines.append("bq")
         lines.append("bend")
         cases.append(("h%d" % k, "\n".join(lines), "hash"))
     return cases
